@@ -43,6 +43,25 @@ CHECKS["C14"] = dict(
     ref="5 (C14), 7 (K1), Appendix E",
 )
 
+CHECKS["C13"] = dict(
+    category="exploration",
+    technique="real muxer over a sparse >4 GiB verifying stream; boundary scenarios just below/at/above each 2^32 limit; independent decoder + full read-back",
+    text=("Places media-data size, chunk offsets (by volume and by non-zero start position) and media/track/movie durations just below, at and above "
+          "2^32 for every media kind and (thorough) a single chunk larger than 4 GiB, then checks with the independent decoder that the 64-bit forms are "
+          "used exactly when needed and no field is truncated, and reads every sample back through the real reader. The boundaries are few and known, so "
+          "directed scenario coverage on both sides of each is the appropriate level."),
+    note="Trusted base: SparseStream (harness/src/streams.rs) verifies payload writes against their generator; refdec.rs.",
+    ref="5 (C13)",
+)
+CHECKS["C17"] = dict(
+    category="exploration",
+    technique="panic monitor over degenerate muxer histories in two build profiles; C01/C02 oracles on the all-Ok runs",
+    text=("Perturbs documented-domain histories with 14 classes of degenerate arguments and call orders and runs every call under a panic hook in the "
+          "overflow-checked and the release profile; all-Ok finished histories are additionally judged by the C01 and C02 oracles."),
+    note="Samples >= 4 GiB are not exercised (F35 in DESIGN 7).",
+    ref="5 (C17)",
+)
+
 PENDING_REASON = "monitor not yet registered in this commit (implementation in progress, see DESIGN.md section 11); not claimed until its check is silent on the unchanged tree"
 
 def mk():
